@@ -130,7 +130,7 @@ class Admin(Party):
         b = r.choice(self.buckets)
         x = r.random()
         if x < 0.3:
-            return {"op": "create", "b": b, "meta": gen.meta(r, wild=self.cfg.get("wild_meta", True))}
+            return {"op": "create", "b": b, "meta": named(gen.meta(r, wild=self.cfg.get("wild_meta", True)), self.cfg)}
         if x < 0.65:
             return {"op": "update", "b": b, "fields": update_fields(r)}
         return {"op": "delete_bucket", "b": b}
@@ -229,5 +229,13 @@ def schedule(r, parties, weights, nsteps):
     return steps
 
 
+def named(m, cfg):
+    """Crash-mode workloads always give a name: the default for an omitted name is backend-specific and the
+    properties compare the name only when it was given."""
+    if cfg.get("always_name") and "name" not in m:
+        m["name"] = "bucket name"
+    return m
+
+
 def creates(r, buckets, cfg):
-    return [{"op": "create", "b": b, "meta": gen.meta(r, wild=cfg.get("wild_meta", False)), "actor": "admin"} for b in buckets]
+    return [{"op": "create", "b": b, "meta": named(gen.meta(r, wild=cfg.get("wild_meta", False)), cfg), "actor": "admin"} for b in buckets]
